@@ -209,6 +209,9 @@ class Trace:
             self.line(c, "PASS " + password)
         if user_first is None:
             user_first = (c % 3 == 1)
+        if user is None:
+            # the user name is not the nick for every third connection: nothing may look a user up by the wrong one (seeded C04-e)
+            user = nick + "U" if c % 3 == 2 else nick
         if user_first:
             self.line(c, "USER %s 8 * :%s" % (user or nick, real or ("Real " + nick)))
             self.line(c, "NICK " + nick)
